@@ -368,6 +368,13 @@ class Report:
         }
         self.assumptions = []
         self.notes = []
+        # replay files of earlier runs of this property are stale
+        try:
+            for fn in os.listdir(REPLAY):
+                if fn.startswith(prop + "-"):
+                    os.remove(os.path.join(REPLAY, fn))
+        except OSError:
+            pass
 
     def violation(self, what, replay_obj, found_input=True):
         os.makedirs(REPLAY, exist_ok=True)
